@@ -360,7 +360,7 @@ func (f *Frame) assign(st *State, s *ast.AssignStmt) {
 			m := f.expr(st, r.X)
 			k := f.convert(f.expr(st, r.Index), f.typeOf(r.Index), mt.Key())
 			_, vs := vc.mapSorts(mt)
-			vals = []Term{vc.mapRead(st, m, k, vs), vc.mapHas(st, m, k)}
+			vals = []Term{f.typed(st, vc.mapRead(st, m, k, vs), mt.Elem()), vc.mapHas(st, m, k)}
 		case *ast.TypeAssertExpr: // v, ok := x.(T)
 			x := f.expr(st, r.X)
 			t := f.typeOf(r.Type)
